@@ -33,8 +33,8 @@ C18's prefix selection):
   `watch-differs:external-update-order` (a changed output makes only its producer pending, so a
   tampered output and a removed source of its producer give different graphs in the two orders).
 * `pruned_updated_exist`, `nglob_sets_disjoint`: after the pruning of `run_once` (unchanged paths dropped,
-  re-hashed paths that are gone moved from `updated` to `deleted`: the repair of finding
-  `watch-update-under-moved-directory`) every re-hashed path left in `updated` exists, and the two sets
+  paths that are gone, re-hashed or not, moved from `updated` to `deleted`: the repair of finding
+  `watch-update-under-moved-directory`) every path left in `updated` exists, and the two sets
   handed to `process_nglob_changes` stay disjoint.
 * `watch_glob_eq_rescan_partial`: `process_nglob_changes(deleted, pruned updated)` records what a fresh
   scan records when the two sets are complete for the paths the pattern accepts
@@ -232,42 +232,40 @@ theorem unconfirmed_negation : ¬ WatchFilesEqRestart := by
   decide
 
 omit [DecidableEq α] in
-/-- **What `process_nglob_changes` receives as `updated` exists.**  Every re-hashed path that stays in
-`updated` after the pruning of `run_once` is on disk (its new hash is known) and differs from its
-record: an update reported for a path that is not there counts as a deletion. -/
-theorem pruned_updated_exist (node : α → Option FileRec) (disk : α → Option Nat) (s : Sets α) (p : α) (r : FileRec)
-    (hp : p ∈ prunedUpdated node disk s) (hn : node p = some r) (hr : r.rescannable = true) :
-    p ∈ s.updated ∧ (disk p).isSome = true ∧ disk p ≠ r.hash := by
+/-- **What `process_nglob_changes` receives as `updated` exists.**  Every path that stays in `updated`
+after the pruning of `run_once` is there: a re-hashed one has a known new hash that differs from its
+record, one that was not re-hashed (a glob match without a node) exists on disk.  An update reported
+for a path that is not there counts as a deletion. -/
+theorem pruned_updated_exist (node : α → Option FileRec) (disk : α → Option Nat) (present : α → Bool) (s : Sets α)
+    (p : α) (hp : p ∈ prunedUpdated node disk present s) :
+    p ∈ s.updated ∧
+      (∀ r, node p = some r → r.rescannable = true → (disk p).isSome = true ∧ disk p ≠ r.hash) ∧
+      (rehashed node p = false → present p = true) := by
   unfold prunedUpdated at hp
   obtain ⟨h1, h2⟩ := List.mem_filter.mp hp
-  simp only [hn, hr, Bool.not_true, Bool.false_or, Bool.and_eq_true, decide_eq_true_eq] at h2
-  exact ⟨h1, h2.2, h2.1⟩
+  refine ⟨h1, ?_, ?_⟩
+  · intro r hn hr
+    simp only [hn, hr, if_true, Bool.and_eq_true, decide_eq_true_eq] at h2
+    exact ⟨h2.2, h2.1⟩
+  · intro hre
+    unfold rehashed at hre
+    cases hn : node p with
+    | none => simpa [hn] using h2
+    | some r =>
+      simp only [hn] at hre h2
+      simpa [hre] using h2
 
 /-- **The two sets handed to `process_nglob_changes` are disjoint** (it raises `ConsistencyError`
-otherwise) whenever the watcher's own sets are, and `deleted` gains exactly the re-hashed paths of
-`updated` that are gone although their record says otherwise. -/
-theorem nglob_sets_disjoint (node : α → Option FileRec) (disk : α → Option Nat) (s : Sets α)
+otherwise) whenever the watcher's own sets are, every path of `updated` ends in exactly one of them
+unless it was re-hashed and found unchanged, and `deleted` gains only paths of `updated`. -/
+theorem nglob_sets_disjoint (node : α → Option FileRec) (disk : α → Option Nat) (present : α → Bool) (s : Sets α)
     (hdis : ∀ p, ¬ (p ∈ s.updated ∧ p ∈ s.deleted)) (p : α) :
-    ¬ (p ∈ prunedUpdated node disk s ∧ p ∈ finalDeleted node disk s) ∧
-    (p ∈ finalDeleted node disk s ↔
-      p ∈ s.deleted ∨ (p ∈ s.updated ∧ ∃ r, node p = some r ∧ r.rescannable = true ∧ disk p ≠ r.hash ∧ disk p = none)) := by
-  have hv : p ∈ vanishedUpdated node disk s ↔
-      p ∈ s.updated ∧ ∃ r, node p = some r ∧ r.rescannable = true ∧ disk p ≠ r.hash ∧ disk p = none := by
-    unfold vanishedUpdated
-    rw [List.mem_filter]
-    cases hn : node p with
-    | none => simp
-    | some r => simp [Bool.and_eq_true, Option.isNone_iff_eq_none, and_assoc]
-  constructor
-  · rintro ⟨h1, h2⟩
-    unfold finalDeleted at h2
-    obtain ⟨hu, hk⟩ := List.mem_filter.mp h1
-    rcases List.mem_append.mp h2 with hd | hd
-    · exact hdis p ⟨hu, hd⟩
-    · obtain ⟨_, r, hn, hr, _, hnone⟩ := hv.mp (List.mem_filter.mp hd).1
-      simp [hn, hr, hnone] at hk
-  · unfold finalDeleted
-    rw [List.mem_append, List.mem_filter, hv]
+    ¬ (p ∈ prunedUpdated node disk present s ∧ p ∈ finalDeleted node disk present s) ∧
+    (p ∈ finalDeleted node disk present s ↔ p ∈ s.deleted ∨ p ∈ vanishedUpdated node disk present s) ∧
+    (p ∈ vanishedUpdated node disk present s → p ∈ s.updated) := by
+  have hfd : p ∈ finalDeleted node disk present s ↔ p ∈ s.deleted ∨ p ∈ vanishedUpdated node disk present s := by
+    unfold finalDeleted
+    rw [List.mem_append, List.mem_filter]
     constructor
     · rintro (h | ⟨h, _⟩)
       · exact Or.inl h
@@ -277,6 +275,23 @@ theorem nglob_sets_disjoint (node : α → Option FileRec) (disk : α → Option
       · by_cases hd : p ∈ s.deleted
         · exact Or.inl hd
         · exact Or.inr ⟨h, by simpa using hd⟩
+  refine ⟨?_, hfd, fun h => (List.mem_filter.mp h).1⟩
+  rintro ⟨h1, h2⟩
+  obtain ⟨hu, hk⟩ := List.mem_filter.mp h1
+  rcases hfd.mp h2 with hd | hv
+  · exact hdis p ⟨hu, hd⟩
+  · have hk2 := (List.mem_filter.mp hv).2
+    cases hn : node p with
+    | none => simp [hn] at hk hk2; simp [hk] at hk2
+    | some r =>
+      simp only [hn] at hk hk2
+      by_cases hr : r.rescannable = true
+      · simp only [hr, if_true, Bool.and_eq_true] at hk hk2
+        have a := hk.2
+        have b := hk2.2
+        cases hdp : disk p <;> simp [hdp] at a b
+      · simp only [hr, Bool.false_eq_true, if_false] at hk hk2
+        simp [hk] at hk2
 
 /-- Relevance does not imply that a restart would look at the file: with a node that is detached
 and UNDECLARED (an input some step lists and nobody declares) and a glob that accepts the path, the
